@@ -236,26 +236,63 @@ theorem parseFrames_wire {α} (enc : α → Bytes) (dec : Bytes → Option α) :
 theorem parseFrame_nil {α} (dec : Bytes → Option α) : parseFrame dec [] = none := by
   simp [parseFrame, parseDelimiter]
 
-/-- shape of a strict prefix of a frame sequence: some complete frames, then a strict prefix of
-    the next frame -/
-theorem wireOf_take {α} (enc : α → Bytes) : ∀ (rs : List α) (k : Nat), k < (wireOf enc rs).length →
-    ∃ j k', j < rs.length ∧
-      (∃ r, rs[j]? = some r ∧ k' < (lengthDelimited (enc r)).length ∧
-        (wireOf enc rs).take k = wireOf enc (rs.take j) ++ (lengthDelimited (enc r)).take k') := by
+/-- lengths of the frames of a list of messages -/
+def frameLens {α} (enc : α → Bytes) (rs : List α) : List Nat :=
+  rs.map (fun r => (lengthDelimited (enc r)).length)
+
+theorem wireOf_length {α} (enc : α → Bytes) (rs : List α) :
+    (wireOf enc rs).length = (frameLens enc rs).sum := by
+  induction rs with
+  | nil => simp [wireOf, frameLens]
+  | cons r rs ih => rw [wireOf_cons, List.length_append, ih]; simp [frameLens]
+
+theorem completeCount_lt {α} (enc : α → Bytes) : ∀ (rs : List α) (k : Nat), k < (wireOf enc rs).length →
+    completeCount (frameLens enc rs) k < rs.length := by
   intro rs
   induction rs with
   | nil => intro k hk; simp [wireOf] at hk
   | cons r rs ih =>
     intro k hk
+    rw [wireOf_cons, List.length_append] at hk
+    simp only [frameLens, List.map_cons, completeCount, List.length_cons]
+    split
+    · have := ih (k - (lengthDelimited (enc r)).length) (by omega)
+      simp only [frameLens] at this
+      omega
+    · omega
+
+/-- shape of a strict prefix of a frame sequence: the frames that are complete within the cut — as
+    counted from the frame lengths — then a strict prefix of the next frame -/
+theorem wireOf_take {α} (enc : α → Bytes) : ∀ (rs : List α) (k : Nat), k < (wireOf enc rs).length →
+    ∃ k', completeCount (frameLens enc rs) k < rs.length ∧
+      (∃ r, rs[completeCount (frameLens enc rs) k]? = some r ∧ k' < (lengthDelimited (enc r)).length ∧
+        (wireOf enc rs).take k =
+          wireOf enc (rs.take (completeCount (frameLens enc rs) k)) ++ (lengthDelimited (enc r)).take k') := by
+  intro rs
+  induction rs with
+  | nil => intro k hk; simp [wireOf] at hk
+  | cons r rs ih =>
+    intro k hk
+    have hlt := completeCount_lt enc (r :: rs) k hk
     rw [wireOf_cons] at hk ⊢
     by_cases hkf : k < (lengthDelimited (enc r)).length
-    · refine ⟨0, k, by simp, r, by simp, hkf, ?_⟩
+    · have hc : completeCount (frameLens enc (r :: rs)) k = 0 := by
+        simp only [frameLens, List.map_cons, completeCount]
+        rw [if_neg (by omega)]
+      rw [hc] at hlt ⊢
+      refine ⟨k, hlt, r, by simp, hkf, ?_⟩
       rw [List.take_append]
       have : k - (lengthDelimited (enc r)).length = 0 := by omega
       simp [this, wireOf_nil]
     · rw [List.length_append] at hk
-      obtain ⟨j, k', hj, r', hr', hk', heq⟩ := ih (k - (lengthDelimited (enc r)).length) (by omega)
-      refine ⟨j + 1, k', by simpa using hj, r', by simpa using hr', hk', ?_⟩
+      obtain ⟨k', hj, r', hr', hk', heq⟩ := ih (k - (lengthDelimited (enc r)).length) (by omega)
+      have hc : completeCount (frameLens enc (r :: rs)) k =
+          completeCount (frameLens enc rs) (k - (lengthDelimited (enc r)).length) + 1 := by
+        simp only [frameLens, List.map_cons, completeCount]
+        rw [if_pos (by omega)]
+        omega
+      rw [hc] at hlt ⊢
+      refine ⟨k', hlt, r', by simpa using hr', hk', ?_⟩
       rw [List.take_append, List.take_of_length_le (by omega), heq]
       simp [wireOf_cons, List.append_assoc]
 
@@ -264,37 +301,35 @@ theorem parseFrames_wire_take {α} (enc : α → Bytes) (dec : Bytes → Option 
     (rs : List α) (k fuel : Nat)
     (hv : ∀ r ∈ rs, dec (enc r) = some r ∧ (enc r).length < 2 ^ 64)
     (hk : k < (wireOf enc rs).length) (hf : ((wireOf enc rs).take k).length ≤ fuel) :
-    ∃ j, j < rs.length ∧ parseFrames dec fuel ((wireOf enc rs).take k) = rs.take j := by
-  obtain ⟨j, k', hj, r, hr, hk', heq⟩ := wireOf_take enc rs k hk
-  refine ⟨j, hj, ?_⟩
+    parseFrames dec fuel ((wireOf enc rs).take k) = rs.take (completeCount (frameLens enc rs) k) := by
+  obtain ⟨k', hj, r, hr, hk', heq⟩ := wireOf_take enc rs k hk
   rw [heq] at hf ⊢
   have hrm : r ∈ rs := List.mem_of_getElem? hr
-  apply parseFrames_wire enc dec (rs.take j) fuel _
+  apply parseFrames_wire enc dec (rs.take _) fuel _
   · intro x hx; exact hv x (List.mem_of_mem_take hx)
   · exact parseFrame_frame_take dec (enc r) k' (hv r hrm).2 hk'
-  · have := wireOf_length_ge enc (rs.take j)
+  · have := wireOf_length_ge enc (rs.take (completeCount (frameLens enc rs) k))
     rw [List.length_append] at hf
     omega
 
-/-- `read_response` on a buffer that is a strict prefix of a written frame sequence -/
+/-- `read_response` on a buffer that is a strict prefix of a written frame sequence: exactly the
+    complete frames, an error when there is none -/
 theorem result_of_take {α} (enc : α → Bytes) (dec : Bytes → Option α) (rs : List α) (m : Nat)
     (hv : ∀ r ∈ rs, dec (enc r) = some r ∧ (enc r).length < 2 ^ 64)
     (hm : m < (wireOf enc rs).length) :
-    ∃ j, j < rs.length ∧
-      (if (parseFrames dec ((wireOf enc rs).take m).length ((wireOf enc rs).take m)).isEmpty then none
-       else some (parseFrames dec ((wireOf enc rs).take m).length ((wireOf enc rs).take m))) =
-      if j = 0 then none else some (rs.take j) := by
-  obtain ⟨j, hj, hp⟩ := parseFrames_wire_take enc dec rs m _ hv hm (Nat.le_refl _)
-  refine ⟨j, hj, ?_⟩
-  rw [hp]
-  by_cases hj0 : j = 0
-  · subst hj0; simp
-  · have : (rs.take j).isEmpty = false := by
+    (if (parseFrames dec ((wireOf enc rs).take m).length ((wireOf enc rs).take m)).isEmpty then none
+     else some (parseFrames dec ((wireOf enc rs).take m).length ((wireOf enc rs).take m))) =
+    if completeCount (frameLens enc rs) m = 0 then none else some (rs.take (completeCount (frameLens enc rs) m)) := by
+  have hj := completeCount_lt enc rs m hm
+  rw [parseFrames_wire_take enc dec rs m _ hv hm (Nat.le_refl _)]
+  by_cases hj0 : completeCount (frameLens enc rs) m = 0
+  · simp [hj0]
+  · have : (rs.take (completeCount (frameLens enc rs) m)).isEmpty = false := by
       cases rs with
       | nil => simp at hj
       | cons a t =>
-        cases j with
-        | zero => exact absurd rfl hj0
+        cases hc : completeCount (frameLens enc (a :: t)) m with
+        | zero => exact absurd hc hj0
         | succ n => simp
     simp [this, hj0]
 
